@@ -366,7 +366,7 @@ class RemoveVariable(Contract):
     params = {"name": TStr}
     modifies = ("self",)
     raises = {"KeyError": lambda c: z3.Not(V(c.old.self).has(c.old.name))}
-    loops = {0: LoopSpec(anchor="self", modifies=("self",), inv=lambda c, k: _remove_inv(c, k))}
+    loops = {0: LoopSpec(anchor="self", modifies=("self._DesignSpace__names_to_indices#vals",), inv=lambda c, k: _remove_inv(c, k))}
 
     def requires(self, c):
         return wf(c.old.self)
@@ -387,23 +387,22 @@ class RemoveVariable(Contract):
 
 
 def _remove_inv(c, k):
-    """While shifting the index ranges: entries after `name` among the first k variables are shifted."""
-    s0, s = c.old.self, c.new.self
+    """While shifting the index ranges (only the *values* of names_to_indices change in the loop): the entries of the variables
+    located after `name` among the first k variables are shifted by its size, the others still have their entry value."""
+    s0, pre, s = c.old.self, c.pre_locals["self"], c.new.self
     nm = c.old.name
     v0 = V(s0)
-    ix0, ix = I(s0), I(s)
+    ixe, ix = I(pre), I(s)  # the dictionary at loop entry (`name` already deleted) / now
     p = v0.pos[nm]
     sz = size(v0.vals[nm])
     x = z3.Const("k!ri", TStr.sort())
     shifted = lambda t: TRange.dt.mk(start(t) - sz, stop(t) - sz)  # noqa: E731
+    pat = [ix.vals[x], v0.pos[x]]
     return [
         ("reached", c.locals["variable_is_reached"] == (p < k)),
         ("size", c.locals["size"] == sz),
-        ("variables-untouched", z3.And(unchanged_dict(V(s), v0), unchanged_dict(N(s), N(s0)), unchanged_dict(CV(s), CV(s0)))),
-        ("indices-keys", z3.And(ix.n == ix0.n - 1, z3.ForAll([x], ix.has(x) == z3.And(ix0.has(x), x != nm)))),
-        ("indices-order", without_key_order(ix, ix0, nm)),
-        ("indices-values", z3.ForAll([x], z3.Implies(ix.has(x), ix.vals[x] == z3.If(z3.And(v0.pos[x] > p, v0.pos[x] < k), shifted(ix0.vals[x]), ix0.vals[x])))),
-        ("scalars", z3.And(s.dimension == s0.dimension - sz, z3.Not(s._DesignSpace__norm_data_is_computed))),
+        ("indices:shifted-after-name", z3.ForAll([x], z3.Implies(z3.And(v0.has(x), x != nm, v0.pos[x] > p, v0.pos[x] < k), ix.vals[x] == shifted(ixe.vals[x])), patterns=pat)),
+        ("indices:others-kept", z3.ForAll([x], z3.Implies(z3.And(v0.has(x), x != nm, z3.Or(v0.pos[x] < p, v0.pos[x] >= k)), ix.vals[x] == ixe.vals[x]), patterns=pat)),
     ]
 
 
@@ -477,6 +476,9 @@ class _SetBound(Contract):
 
     def requires(self, c):
         return wf(c.old.self)
+
+    def axioms(self, c):
+        return derived_wf(c.old.self)
 
     def ensures(self, c):
         s0, s1 = c.old.self, c.new.self
